@@ -4,6 +4,7 @@ package main
 // C06 — Farm: reward budget is conserved, released only while staked, refunded once.
 
 import (
+	"os"
 	"fmt"
 	"strings"
 
@@ -451,6 +452,15 @@ func runC06(cx *Ctx, r *Report) {
 			// exactly one of the two payouts on every successful path
 			pf, p1, p2 := commonFrame(pays[0].ev, pool[0].ev)
 			ok = ok && pf != nil && p1 != nil && p2 != nil && p1 != p2 && mustPass(pf.Fn, func(i ssa.Instruction) bool { return i == p1 || i == p2 }) && !p1.Block().Dominates(p2.Block()) && !p2.Block().Dominates(p1.Block())
+		}
+		if !ok && os.Getenv("DEBUG_C06") != "" {
+			fmt.Fprintf(os.Stderr, "budget-refund %s: pays=%d pool=%d deq=%d persisted=%v\n", name, len(pays), len(pool), len(deq), persistedAfter(z, evs, "farm:FarmPoolRuleKey=0x02"))
+			if len(pays) == 1 && len(pool) == 1 && len(deq) == 1 {
+				lcf, s1, _ := commonFrame(deq[0].ev, z.ev)
+				_, c1 := pool[0].fact(true, "Equals(", "GetModuleAddress(", "keeper.communityPoolName")
+				_, c2 := pays[0].fact(false, "Equals(", "GetModuleAddress(", "keeper.communityPoolName")
+				fmt.Fprintf(os.Stderr, "   entryblock=%v c1=%v c2=%v a=%s\n", lcf != nil && s1 != nil && s1.Block() == lcf.Fn.Blocks[0], c1, c2, trunc(lastArgS(pays[0].ev), 100))
+			}
 		}
 		r.check(ok, "budget-refund", name, z.ev.Pos(cx), "refund: the active entry is dequeued first, each rule's remaining budget is added to the refund, zeroed and persisted in the same iteration, and the sum is paid from the escrow to the creator or (exclusively) the community pool", "refund structure broken in "+name+" (dequeue-first / accumulate-zero-persist / exactly one payout)")
 		if name == "DestroyPool" {
